@@ -521,6 +521,19 @@ func (g *seqGen) step() {
 		if g.r.Intn(15) == 0 {
 			c.Fh2 = g.anyHandle(2)
 		}
+		if g.r.Intn(10) == 0 {
+			// a stale handle of the same inode number as the other (live) directory argument
+			for _, o := range g.dead {
+				if o.kind == 2 && len(o.fh) >= 16 && len(c.Fh) >= 16 && o.fh[:16] == c.Fh[:16] && o.fh != c.Fh {
+					if g.r.Intn(2) == 0 {
+						c.Fh2 = o.fh
+					} else {
+						c.Fh2, c.Fh = c.Fh, o.fh
+					}
+					break
+				}
+			}
+		}
 		if dd := g.byFh(c.Fh); dd != nil && c.Fh2 != c.Fh && g.cfg.Avoid["rename-dir-cross"] {
 			if src := g.find(dd, c.Name); src != nil && src.kind == 2 {
 				c.Fh2 = c.Fh // keep directory renames inside one parent
